@@ -5,9 +5,17 @@ from l2common import *
 import streams, applyc
 
 THEOREMS = {"C07": ["exit_status_range"],
-            "C08": ["sget_line_some", "parse_unified_fueled", "parse_normal_fueled", "parse_context_fueled", "parse_context_hunk_spec",
-                    "parse_patch_body_fueled", "parse_quoted_string_fueled", "parse_patch_header_fueled",
-                    "body_progress", "header_full_spec", "section_loop_fueled", "process_patch_fueled"]}
+            "C08": ["sget_line_some", "parse_unified_fueled", "parse_normal_fueled", "parse_context_fueled",
+                    "parse_context_hunk_spec", "parse_patch_body_fueled", "parse_quoted_string_fueled",
+                    "parse_patch_header_fueled", "body_progress", "header_full_spec", "section_loop_fueled",
+                    "process_patch_fueled", "locate_hunk_cost_same", "apply_patch_cost_same", "fuzz_levels_bound",
+                    "locate_hunk_cost_bound", "locate_hunk_cost_bound_sharp", "locate_hunk_cost_bound_F",
+                    "locate_hunk_cost_bound_anyF", "locate_hunk_cost_insertion", "position_test_cost", "apply_patch_cost_bound",
+                    "apply_patch_cost_bound_sharp", "apply_patch_cost_bound_weight", "apply_patch_cost_bound_max",
+                    "apply_patch_cost_bound_anyF", "matches_cost_same", "matches_cost_bound", "locate_hunk_chars_same",
+                    "locate_hunk_chars_bound", "locate_hunk_chars_bound_anyF", "apply_patch_chars_same",
+                    "apply_patch_chars_bound", "apply_patch_chars_bound_anyF", "split_lines_sizes",
+                    "locate_hunk_chars_bound_bytes", "apply_patch_chars_bound_bytes"]}
 
 EXTREMES = ["0", "1", "9223372036854775807", "9223372036854775806", "9223372036854775808", "18446744073709551615", "99999999999999999999", "2147483647", "2147483648", "4294967296"]
 
